@@ -407,6 +407,30 @@ def _check_accuracy(cell, case, ctx):
         ctx.exclude("mp_singular")
         return
     norm = max([abs(x) for x in ref] + [mpf(0)])
+    boost_floor = mpf(0)
+    if "boost" in op.tags and da == 4:
+        # a boost combines gamma * p and gamma * beta * t: when they cancel (a nearly light-like vector boosted along its own
+        # direction with a large Lorentz factor) every floating-point route carries u * gamma * (|p| + |t|), however smooth the
+        # exact result is in the inputs - the same kind of floor as t^2 / tau for a proper time
+        try:
+            ca_ = R.to_cartesian(sa, st_a)
+            if "gamma" in s_ref:
+                g_ = abs(mpf(s_ref["gamma"]))
+            elif "beta" in s_ref:
+                g_ = 1 / mpmath.sqrt(1 - mpf(s_ref["beta"]) ** 2)
+            elif db == 3:
+                cb_ = R.to_cartesian(sb, st_b)
+                g_ = 1 / mpmath.sqrt(1 - sum(x * x for x in cb_[:3]))
+            elif db == 4:
+                cb_ = R.to_cartesian(sb, st_b)
+                g_ = abs(cb_[3]) / mpmath.sqrt(abs(cb_[3] ** 2 - sum(x * x for x in cb_[:3])))
+            else:
+                g_ = mpf(1)
+            if isinstance(g_, mpmath.mpc) or not obs.finite(g_):
+                g_ = mpf(1)
+            boost_floor = g_ * (R.norm(ca_[:3]) + abs(ca_[3]))
+        except Exception:  # noqa: BLE001
+            boost_floor = mpf(0)
     for k in range(len(ref)):
         # angles and pseudorapidity are dimensionless: their own rounding floor is u*max(1,|value|)
         dimensionless = names[k] in ("phi", "theta", "eta") or op.result == "angle" or op.name in DIMENSIONLESS
@@ -424,6 +448,8 @@ def _check_accuracy(cell, case, ctx):
                     pass
         else:
             floor = abs(ref[k])
+        if boost_floor and not dimensionless:
+            floor = max(floor, boost_floor)
         tol = ACC_C * U * (sens[k] + floor) + mpf("1e-300")
         d = got[k] - ref[k]
         if names[k] == "phi" or op.result == "angle":
